@@ -1,9 +1,10 @@
 SPECIFICATION Spec
 CONSTANTS
   Shapes <- MCShapesT
-  Gs = {0, 1, 2, 4}
+  Gs = {0, 1, 2, 3, 4}
   Q = 4
   PDen = 8
+  Shifts <- MCShifts
 INVARIANT TypeOK
 INVARIANT MassConserved
 INVARIANT MeanConserved
